@@ -236,7 +236,11 @@ func (w *_node) LookupByString(key string) (datamodel.Node, error) {
 		switch ktyp := typ.KeyType().(type) {
 		case *schema.TypeString:
 			// plain String keys, so safely use the map key as is
+			// (converted, as the Go key type may be a named string type)
 			kval = reflect.ValueOf(key)
+			if goKey := valuesVal.Type().Key(); kval.Type() != goKey && kval.Type().ConvertibleTo(goKey) {
+				kval = kval.Convert(goKey)
+			}
 		default:
 			// key is something other than a string that we need to assemble via
 			// the string representation form, use _assemblerRepr to reverse from
